@@ -193,6 +193,14 @@ func (m *machine) registerIntrinsics() {
 		}
 		return n
 	}
+	in[vs+"SymbolicBlobSizes"] = func(fr *frame, fn *ssa.Function, args []value) value {
+		fr.i.symSizes = int(asInt64(args[0]))
+		if fr.i.symSizes > 0 {
+			fr.i.ropeMode = true
+		}
+		return nil
+	}
+	in[vs+"NativeBigPayload"] = func(fr *frame, fn *ssa.Function, args []value) value { return false }
 	in[vs+"Dir"] = func(fr *frame, fn *ssa.Function, args []value) value { return args[0] }
 	in[vs+"Hash"] = func(fr *frame, fn *ssa.Function, args []value) value {
 		return fr.i.contentToken(args[0])
@@ -359,6 +367,12 @@ func (m *machine) registerIntrinsics() {
 	in["fmt.Println"] = noop
 	in["fmt.Print"] = noop
 	in["fmt.Fprintf"] = noop
+	in["(*fmt.wrapError).Error"] = func(fr *frame, fn *ssa.Function, args []value) value {
+		return (*fr.ptr(args[0])).(structure)[0]
+	}
+	in["(*fmt.wrapError).Unwrap"] = func(fr *frame, fn *ssa.Function, args []value) value {
+		return (*fr.ptr(args[0])).(structure)[1]
+	}
 	in["errors.Is"] = func(fr *frame, fn *ssa.Function, args []value) value {
 		return fr.i.errorsIs(fr, args[0].(iface), args[1].(iface))
 	}
@@ -436,6 +450,7 @@ func (m *machine) registerIntrinsics() {
 	m.registerCodecIntrinsics()
 	m.registerEnvIntrinsics()
 	m.registerCBORIntrinsics()
+	m.registerRopeIntrinsics()
 	m.registerReplacements()
 	m.registerEnvReplacements()
 }
